@@ -21,7 +21,7 @@ from . import c05, c06
 ID = 'C07'
 BUDGET = {'quick': 300, 'thorough': 2400}
 FRESH = 'Zq_fresh'
-LAYOUTS_QUICK = ['lf', 'crlf', 'nofinal', 'unicode']
+LAYOUTS_QUICK = ['lf', 'crlf', 'nofinal', 'unicode', 'exotic']
 LAYOUTS_THOROUGH = LAYOUTS_QUICK + ['cr', 'crlf_nofinal']
 
 
@@ -35,6 +35,11 @@ def layout(files, lay):
     for k, v in files.items():
         if lay == 'unicode':
             v = pf.unicode_names(v)
+        if lay == 'exotic':
+            # characters that str.splitlines() treats as line boundaries but parso/Python do not:
+            # a form-feed page break line and a U+2028 inside a comment on every def/class line
+            v = re.sub(r'(?m)^(def |class )', '\x0c\n\\1', v)
+            v = re.sub(r'(?m)^(\s*)(RESULT = .*)$', '\\1\\2  # sep\u2028here', v)
         if lay in ('crlf', 'crlf_nofinal'):
             v = v.replace('\n', '\r\n')
         if lay == 'cr':
@@ -193,7 +198,7 @@ def check_program(src, chain, lay, gnu_patch=False):
     pid = '%s/%s' % (prog.pid(), lay)
     lf_files = prog.render()
     files = layout(lf_files, lay)
-    if lay == 'unicode':
+    if lay in ('unicode', 'exotic'):
         lf_files = files
     base = os.path.join(boot.scratch_root(), 'c07', '%d_%s' % (os.getpid(), abs(hash(pid)) % 10 ** 8))
     shutil.rmtree(base, ignore_errors=True)
@@ -206,8 +211,16 @@ def check_program(src, chain, lay, gnu_patch=False):
         out['fails'].append({'site': site, 'input': '%s|%s' % (pid, inp), 'detail': detail})
 
     try:
-        for k, rq in enumerate(requests_for(lf_files)):
-            inp = '%s@%s:%d:%d%s' % (rq['m'], rq['file'], rq['line'], rq['col'],
+        reqs = requests_for(lf_files)
+        # second pass over rename requests of package names: an EMPTY directory with the new name
+        # already exists (Path.rename replaces it; an implementation that moves *into* it would
+        # leave files at unannounced paths)
+        pkg_dirs = {r.split('/')[0] for r in lf_files if '/' in r}
+        reqs += [dict(r, predir=True) for r in reqs if r['m'] == 'rename' and r.get('name') in
+                 {pf.unicode_names(d) if lay == 'unicode' else d for d in pkg_dirs}]
+        for k, rq in enumerate(reqs):
+            inp = '%s%s@%s:%d:%d%s' % (rq['m'], '+predir' if rq.get('predir') else '',
+                                       rq['file'], rq['line'], rq['col'],
                                      '-%d:%d' % (rq['until_line'], rq['until_col'])
                                      if 'until_line' in rq else '')
             root = os.path.join(base, 'p%d' % k)
@@ -322,6 +335,8 @@ def check_program(src, chain, lay, gnu_patch=False):
                          {'file': k2, 'old_tail': old[-20:], 'new_tail': code[-20:]})
             # --- apply
             try:
+                if rq.get('predir'):
+                    os.mkdir(os.path.join(root, FRESH))
                 ref.apply()
             except Exception as e:
                 fail(canon.exc_site(e) + '/apply', inp, {'tb': canon.short_tb(e)})
